@@ -11,13 +11,13 @@ Section Calendar.
   Hypothesis cal_inverse : forall t, let c := to_civil t in
     of_civil (c_year c) (c_month c) (c_day c) (c_hour c) (c_min c) (c_sec c) = t.
 
-  Lemma time_date_roundtrip_lemma : forall t, os_time of_civil (os_date_t to_civil t) = t.
-  Proof. intros t. unfold os_time, os_date_t, get_int_field. cbn [dget fname_eqb]. apply cal_inverse. Qed.
+  Lemma time_date_roundtrip_lemma : forall t, os_time of_civil (os_date_t to_civil t) = Some t.
+  Proof. intros t. unfold os_time, os_date_t, get_int_field. cbn [dget fname_eqb]. f_equal. apply cal_inverse. Qed.
 
   (* every field os.time reads is the number os.date wrote: no default, no string conversion *)
   Lemma date_fields_plumbing_lemma : forall t k, In k [FYear; FMonth; FDay; FHour; FMin; FSec] ->
     exists z, dget (os_date_t to_civil t) k = Some (DNum z) /\
-              forall dflt, get_int_field (os_date_t to_civil t) k dflt = z.
+              forall dflt, get_int_field (os_date_t to_civil t) k dflt = Some z.
   Proof.
     intros t k Hk. simpl in Hk.
     destruct Hk as [<-|[<-|[<-|[<-|[<-|[<-|[]]]]]]]; eexists; split; try reflexivity; intros; reflexivity.
